@@ -612,8 +612,12 @@ def run_property(prop_id, rules_fn, tier, root=None, overlay=None, write=True, q
     t0 = time.time()
     repo = Repo(root, overlay)
     results = rules_fn(repo, tier)
+    floor_errors = []
     for r in results:
-        r.check_floor()
+        try:
+            r.check_floor()
+        except AnalysisError as e:
+            floor_errors.append(str(e))
     known = [k for k in load_known() if k.get('property') == prop_id and k.get('status') == 'known']
     known_keys = {k['key']: k for k in known}
     violations, known_hits = [], []
@@ -642,6 +646,11 @@ def run_property(prop_id, rules_fn, tier, root=None, overlay=None, write=True, q
                 json.dump(f.to_json(), fh, indent=1, default=str)
         out.append('FINDING %s:%d rule=%s function=%s\n        %s\n        construct: %s' % (f.file, f.line, f.rule, f.func, f.what, f.construct))
         out.append('VIOLATION property=%s replay=%s' % (prop_id, path))
+    if floor_errors and not violations:
+        # nothing concrete to report: the analysis lost its anchors
+        raise AnalysisError('; '.join(floor_errors))
+    for fe in floor_errors:
+        out.append('NOTE (also): ' + fe)
     wall = time.time() - t0
     if write and only_key is None:
         write_evidence(prop_id, tier, results, violations, known_hits, wall, repo)
